@@ -848,7 +848,16 @@ fn render_ev(m: &mut EM, fmt: &str, how: u8, off: Duration, to: TimeScale) -> Op
         };
         Some(match how {
             0 => format!("{}", Formatter::new(a, fm)),
-            1 => format!("{}", Formatter::with_timezone(a, off, fm)),
+            1 => {
+                // with_timezone, or new + set_timezone (the same formatter by another route)
+                if (off.to_parts().1 / 60_000_000_000) % 2 == 0 {
+                    format!("{}", Formatter::with_timezone(a, off, fm))
+                } else {
+                    let mut x = Formatter::new(a, fm);
+                    x.set_timezone(off);
+                    format!("{}", x)
+                }
+            }
             _ => format!("{}", Formatter::to_time_scale(a, fm, to)),
         })
     });
